@@ -205,6 +205,21 @@ def specializes : BTy → BTy → Bool
   | .agg k lo hi b, .agg k' lo' hi' b' => decide (k = k') && boundsConform k lo hi lo' hi' && specializes b b'
   | _, _ => false
 
+/-! ### specialization among the simple types (ISO 10303-11 9.2.6, 13.3.2)
+
+EXPRESS lets a value of a specialization stand where the generalization is declared: INTEGER is a specialization of REAL,
+REAL and INTEGER of NUMBER, BOOLEAN of LOGICAL.  `conforms` (PyAggBase.lean) is the *runtime's* reading — the value's own
+class (`isinstance`), which covers NUMBER (a base class of INTEGER and REAL) but neither INTEGER-for-REAL nor
+BOOLEAN-for-LOGICAL (SimpleDataTypes.py: "@TODO: note 9.2.6 tells that integer is a specialization of real").  The
+container specification above uses `conforms`; `assignable` is EXPRESS's rule, compared with it in Props/C19.lean and
+probed on the real code. -/
+def assignable (t base : Ty) : Bool :=
+  conforms t base ||
+  (match t, base with
+   | .simple 0, .simple 2 => true        -- an INTEGER value where REAL is declared
+   | .simple 3, .simple 4 => true        -- a BOOLEAN value where LOGICAL is declared
+   | _, _ => false)
+
 /-- The EXPRESS built-in functions over aggregates (ISO 10303-11 15.10 HIBOUND, 15.11 HIINDEX, 15.16 LOBOUND, 15.17
 LOINDEX, 15.24 SIZEOF, 15.29 VALUE_UNIQUE) -/
 inductive BuiltinFn | sizeof | hiindex | loindex | hibound | lobound | valueUnique
